@@ -203,5 +203,7 @@ func TestSimWorker(t *testing.T) {
 	if os.Getenv("VERIF_HARNESS") == "" {
 		t.Skip("simulation worker: set VERIF_HARNESS")
 	}
-	os.Exit(simk.WorkerMain([]*simk.Harness{{Name: "dec-wam", Gen: genWamCase, Run: runWamCase}, {Name: "dec-rest", Gen: genRestCase, Run: runRestCase}}))
+	muxT = t
+	os.Exit(simk.WorkerMain([]*simk.Harness{{Name: "dec-wam", Gen: genWamCase, Run: runWamCase}, {Name: "dec-rest", Gen: genRestCase, Run: runRestCase},
+		{Name: "mux", Gen: genMuxCase, Run: runMuxCase}}))
 }
